@@ -199,7 +199,7 @@ def product_chunk(args):
                         out['bytes_checked'] += 1
                         verdicts[nm + ('/aggressive' if aggressive else '')] = h.verify(g, c, p)
                 except Exception as ex:  # noqa: BLE001
-                    res = ('raise', type(ex).__name__)
+                    res = ('raise', common.exc_family(ex))
                 out['runs'] += 1
                 outcomes[nm + ('/aggressive' if aggressive else '')] = res
         if len(set(verdicts.values())) > 1:
